@@ -298,7 +298,9 @@ pub fn run(ctx: &Ctx) -> Report {
     let mut jobs: Vec<(usize, Vec<u8>, u32)> = vec![]; // (base idx, start string, remaining k)
     let mut k_of_base = vec![];
     for (bi, (name, b)) in bs.iter().enumerate() {
-        let k: u32 = if thorough {
+        let k: u32 = if b.len() > 60 {
+            1 // long bases: distance 1 only (S3 covers every position x every byte value on them)
+        } else if thorough {
             if b.len() <= 11 && name.contains("case=0") && name.contains("a=0000") {
                 3
             } else {
